@@ -140,6 +140,9 @@ class VariablesCollector(ValidationVisitor):
             OrderedDict
         )  # type: VariableUsages
         self._fragment_fragments = DefaultOrderedDict(list)  # type: LMap[str]
+        # Every single usage (a variable can be used more than once).
+        self._op_usages = DefaultOrderedDict(list)  # type: ignore
+        self._fragment_usages = DefaultOrderedDict(list)  # type: ignore
         self._in_var_def = False
 
     def enter_operation_definition(self, node):
@@ -182,11 +185,17 @@ class VariablesCollector(ValidationVisitor):
                 input_type,
                 input_value_def,
             )
+            self._op_usages[self._op].append(
+                (var, (node, input_type, input_value_def))
+            )
         elif self._fragment is not None:
             self._fragment_variables[self._fragment][var] = (  # type: ignore
                 node,
                 input_type,
                 input_value_def,
+            )
+            self._fragment_usages[self._fragment].append(
+                (var, (node, input_type, input_value_def))
             )
 
     def _flatten_fragments(self):
